@@ -171,16 +171,71 @@ def summary_tables_of(snapshot):
   return out
 
 
-def cycle_filter(cells, kind_of):
+LOOKUPISH = set(['lookupRecords', 'lookupOne', 'PREVIOUS', 'NEXT', 'RANK', 'order_by', 'sort_by', 'group', 'all',
+                 'find', 'CONTAINS', 'group_by'])
+
+
+def index_columns_of(text):
+  """Column ids that a formula's lookups are keyed or sorted by: keyword names of lookupRecords/lookupOne and the
+  identifiers inside order_by / sort_by / group_by arguments."""
+  out = set()
+  for args in _re.findall(r'lookup(?:Records|One)\(([^)]*)\)', text or ''):
+    out.update(_re.findall(r'([A-Za-z_]\w*)\s*=', args))
+  for args in _re.findall(r'(?:order_by|sort_by|group_by)\s*=\s*(\([^)]*\)|"[^"]*"|\'[^\']*\')', text or ''):
+    out.update(_re.findall(r'[A-Za-z_]\w*', args))
+  return out - set(['order_by', 'sort_by', 'group_by', 'id', 'None'])
+
+
+def lookup_cycle_possible(formulas, cols):
+  """Coarse static test for a REAL dependency cycle through a lookup index: some formula column X reachable from
+  `cols` (following "formula text mentions the id of a formula column") does a lookup keyed or sorted by a
+  formula column I whose own formula (transitively) mentions X. The index over I needs every cell of I, so X
+  depends on itself whatever the rows are. Cross-row chains such as PREVIOUS(rec, order_by=None).X are not of this
+  kind (their index is keyed by nothing and sorted by position), they stay judged."""
+  toks = {k: set(_re.findall(r'[A-Za-z_]\w*', v or '')) for k, v in formulas.items()}
+  by_name = {}
+  for (t, c) in formulas:
+    by_name.setdefault(c, []).append((t, c))
+
+  def succ(k):
+    out = []
+    for name in toks.get(k, ()):
+      out.extend(by_name.get(name, ()))
+    return out
+
+  def reach(start):
+    seen, stack = set(), list(succ(start))
+    while stack:
+      k = stack.pop()
+      if k in seen:
+        continue
+      seen.add(k)
+      stack.extend(succ(k))
+    return seen
+
+  for c0 in cols:
+    if c0 not in formulas:
+      continue
+    for x in reach(c0) | set([c0]):
+      for name in index_columns_of(formulas.get(x, '')):
+        for i in by_name.get(name, ()):
+          if x == i or x in reach(i):
+            return True
+  return False
+
+
+def cycle_filter(cells, kind_of, formulas=None):
   """Differing cells that are not judged because a dependency cycle is involved: pairs of two errors of which
-  one is CircularRefError (as before), and - when some differing pair has CircularRefError on one side only -
-  every differing FORMULA cell: a cycle that runs through a lookup index or sorted neighbours is noticed or not
-  depending on evaluation order, and the cells downstream of it differ accordingly (C18 fixes the outcome only
-  for same-row reference cycles, which C18 itself checks). Data and metadata cells are always judged.
-  Returns (cells still judged, whether anything was dropped)."""
+  one is CircularRefError, and - when some differing pair has CircularRefError on one side only AND the formulas
+  involved can form a cycle through a lookup index or sorted neighbours (lookup_cycle_possible) - every differing
+  FORMULA cell: such a cycle is noticed or not depending on evaluation order, and the cells downstream of it
+  differ accordingly (C18 fixes the outcome only for reference cycles, which stay judged). Data and metadata
+  cells are always judged. Returns (cells still judged, whether anything was dropped)."""
   real = [x for x in cells if not is_cycle_error_pair(x[3], x[4])]
   if any(_is_circ(x[3]) != _is_circ(x[4]) for x in real):
-    real = [x for x in real if kind_of(x[0], x[1]) not in ('formula', 'helper')]
+    fcols = [(x[0], x[1]) for x in real if kind_of(x[0], x[1]) in ('formula', 'helper')]
+    if formulas is None or lookup_cycle_possible(formulas, fcols):
+      real = [x for x in real if kind_of(x[0], x[1]) not in ('formula', 'helper')]
   return real, len(real) < len(cells)
 
 
@@ -335,7 +390,7 @@ def judge_state_diff(ref, obs, full_log, upto):
         labels.append('reference-state-was-stale(summary rows; charged to C05)')
         return None, labels
     return ('structure:%s:%s' % (tcat, what.replace(' ', '-')), structural[:4]), labels
-  real, _ = cycle_filter(cells, lambda t, c: col_kind(ref, t, c))
+  real, _ = cycle_filter(cells, lambda t, c: col_kind(ref, t, c), formulas_of_snapshot(ref))
   # An error value that went through encoding (stored in a data cell, or restored by undo actions) no longer
   # carries its exception object: a formula reading it reports a wrapper around None ('NoneType') instead of
   # the original class. Listed under C05 (reload:stored-error-reraised-as-NoneType); not charged again here.
